@@ -110,7 +110,9 @@ func runC26(c *core.Ctx) {
 	}
 	e.batches()
 	e.concurrent()
+	e.stateful()
 	e.endToEnd()
+	e.endToEnd13()
 }
 
 // refSuite maps a zcrypto suite entry to the reference parameters by suite id.
